@@ -43,6 +43,8 @@ Bad == { ECmp("==", AtWild, One), ECmp("==", One, OQ(Q("@", <<Descend(SName(a_))
          ECmp("==", OFn("count", <<OFn("value", <<AtWild>>)>>), One), ECmp("==", OFn("length", <<OFn("match", <<At1(a_), ReA>>)>>), One),
          ECmp("==", OFn("count", <<Expr(ECmp("==", At1(a_), One))>>), One), EFTest("match", <<At1(a_), Expr(ECmp("==", At1(b_), One))>>),
          ECmp("==", OFn("value", <<OFn("count", <<AtWild>>)>>), One),
+         \* an ill-typed argument after a literal (every argument is checked, not only the first)
+         EFTest("match", <<OLit(Str(<<97, 98>>)), AtWild>>), EFTest("search", <<One, OFn("match", <<At1(b_), ReA>>)>>), EFTest("match", <<OLit(Null), Expr(ECmp("==", At1(b_), One))>>),
          \* the alias "<>" is a comparison like "!=": the same operands are refused
          ECmp("<>", At1(a_), AtWild), ECmp("<>", OFn("match", <<At1(a_), ReA>>), OLit(Bool(TRUE))), ECmp("<>", OQ(Q("@", <<Descend(SName(a_))>>)), One),
          \* the offender on the right of a singular query (each operand is checked, not only the first)
